@@ -47,6 +47,24 @@ func concOps() []concOp {
 			_ = back
 			return digestOf(enc.bytes, classOf(dec.err), classOf(e2), len(dec.toks))
 		},
+		// one Encode sink value used for several streams in a row (a long-lived sink: the sink of the first token
+		// starts a new stream each time), many fixed-width payloads: the bytes are the concatenation of the encodings
+		func(r *rand.Rand) string {
+			w := &slowWriter{}
+			sink := sb.Encode(w)
+			var want []byte
+			for k := 0; k < 4; k++ {
+				var ts []sb.Token
+				for i := 0; i < 30; i++ {
+					ts = append(ts, sb.Token{Kind: sb.KindInt64, Value: int64(r.Uint64())}, sb.Token{Kind: sb.KindUint32, Value: uint32(r.Uint32())}, sb.Token{Kind: sb.KindFloat64, Value: float64(r.Intn(100000)) / 3})
+				}
+				want = append(want, runEncode(ts, 0, 0).bytes...)
+				if err := guard(func() error { return sb.Copy(tokensFrom(ts), sink) }); err != nil {
+					return digestOf("err", classOf(err))
+				}
+			}
+			return digestOf(bytes.Equal(w.buf, want), len(w.buf))
+		},
 		// structural hashes: ints and floats use the 8-byte scratch pool
 		func(r *rand.Rand) string {
 			ts := randValue(r, 3, false).flatten(nil)
@@ -263,4 +281,14 @@ func famConcPlain(dir string, seed int64, tier string) {
 	rep.Distinct = n
 	rep.Samples = append(rep.Samples, fmt.Sprintf("concplain: %d rounds", n))
 	rep.write(dir)
+}
+
+// a writer that yields the processor between receiving a slice and copying it (widens the window in which a
+// shared scratch buffer could be rewritten by somebody else)
+type slowWriter struct{ buf []byte }
+
+func (w *slowWriter) Write(p []byte) (int, error) {
+	runtime.Gosched()
+	w.buf = append(w.buf, p...)
+	return len(p), nil
 }
